@@ -450,3 +450,26 @@ theorem table_good (p : Program) : GoodTable (table p) := by
       exact pairResult_good p _ _ _ _ hp
 
 end C05
+
+
+namespace C05
+
+/-- In `applyChild`, the left-over `consumes_left_lig` flag never decides `last.is_lig`: it is
+left over only if the child's ops contain no character, and then (the left character of the
+child being a real character) the child's `last` is already flagged. (This is why dropping
+`|| consumes_left_lig` from compiler.rs `is_lig: replacement.1.is_lig || consumes_left_lig ||
+right_is_lig` is an equivalent change.) -/
+theorem markFirst_snd (cl : Bool) (ops : List IOp) : (markFirst cl ops).2 = (cl && !hasCh ops) := by
+  induction ops with
+  | nil => simp [markFirst, hasCh]
+  | cons x t ih => cases x <;> simp [markFirst, hasCh, ih]
+
+theorem applyChild_flag_redundant (cl : Bool) (x r : Nat) (prLig : Bool) (rep : Repl)
+    (hg : GoodRepl (some x) r rep) :
+    (rep.2.lig || (markFirst cl rep.1).2 || prLig) = (rep.2.lig || prLig) := by
+  rw [markFirst_snd]
+  cases hl : rep.2.lig with
+  | true => simp
+  | false => simp [hasCh_of_good hg hl]
+
+end C05
